@@ -723,8 +723,9 @@ type payEvent struct {
 	PName     bool       `json:"pname_ok"`
 	PDefs     bool       `json:"pdefs_ok"`
 	PVals     bool       `json:"pvals_same"`
-	Unknown   bool       `json:"unknownrel"` // the payload has a relationship member the schema does not have
-	Trailing  bool       `json:"trailing"`   // something other than white space follows the resource object
+	Unknown   bool       `json:"unknownrel"`  // the payload has a relationship member the schema does not have
+	Trailing  bool       `json:"trailing"`    // something other than white space follows the resource object
+	UnknownT  bool       `json:"unknowntype"` // the payload names a type the schema does not have
 }
 
 type payCase struct {
@@ -736,9 +737,10 @@ type payCase struct {
 	Payload string            `json:"payload"`
 	NoID    bool              `json:"noid"` // the payload has no id member (a create request)
 	// UnknownRel: shape of a relationship member "zr" the schema does not have ("" = none)
-	UnknownRel string `json:"unknownrel"`
-	NoDataForm int    `json:"nodataform"` // which members an object without data carries
-	Trailing   string `json:"trailing"`   // text after the resource object (white space is harmless, anything else is not JSON)
+	UnknownRel  string `json:"unknownrel"`
+	NoDataForm  int    `json:"nodataform"`  // which members an object without data carries
+	Trailing    string `json:"trailing"`    // text after the resource object (white space is harmless, anything else is not JSON)
+	UnknownType bool   `json:"unknowntype"` // the payload's type is not in the schema
 }
 
 var trailings = []string{" \n", ",", "]", " x", " null", "{}", "}", "\x00"}
@@ -747,10 +749,14 @@ var noDataForms = []string{`{"links":{"self":"/s"},"meta":{"a":1}}`, `{"links":{
 
 func renderPayload(c payCase) string {
 	var b strings.Builder
+	typ := "ak"
+	if c.UnknownType {
+		typ = "nope"
+	}
 	if c.NoID {
-		b.WriteString(`{"type":"ak"`)
+		b.WriteString(`{"type":"` + typ + `"`)
 	} else {
-		b.WriteString(`{"type":"ak","id":"x1"`)
+		b.WriteString(`{"type":"` + typ + `","id":"x1"`)
 	}
 	if len(c.Attrs) > 0 {
 		b.WriteString(`,"attributes":{`)
@@ -788,6 +794,8 @@ func renderPayload(c payCase) string {
 				ids = append(ids, fmt.Sprintf(`{"type":"ak2","id":%q}`, id))
 			}
 			rels = append(rels, fmt.Sprintf(`%q:{"data":[%s]}`, r.Name, strings.Join(ids, ",")))
+		case "listbadtail": // a list whose later member is of another type
+			rels = append(rels, fmt.Sprintf(`%q:{"data":[{"type":"ak2","id":"u"},{"type":"ak","id":"v"}]}`, r.Name))
 		case "badshape":
 			rels = append(rels, fmt.Sprintf(`%q:{"data":7}`, r.Name))
 		}
@@ -815,12 +823,12 @@ func idsOf(v any) []string {
 
 func runPayload(c payCase) payEvent {
 	ev := payEvent{Ev: "payload", Impl: c.Impl, Present: sortedKeys(c.Attrs), PAttrs: []string{}, PRels: []string{}, WantRels: []string{},
-		Unknown: c.UnknownRel != "", Trailing: strings.TrimSpace(c.Trailing) != ""}
+		Unknown: c.UnknownRel != "", Trailing: strings.TrimSpace(c.Trailing) != "", UnknownT: c.UnknownType}
 	schema := akSchema(c.Impl)
 	payload := []byte(renderPayload(c))
 	for _, r := range c.Rels {
 		if r.Shape == "null" || r.Shape == "ident" || r.Shape == "list" || r.Shape == "identbadtype" ||
-			r.Shape == "identnotype" || r.Shape == "badtypenoid" {
+			r.Shape == "identnotype" || r.Shape == "badtypenoid" || r.Shape == "listbadtail" {
 			ev.WantRels = append(ev.WantRels, r.Name)
 		}
 	}
@@ -1222,7 +1230,10 @@ func codecOtherModes(mode string, rng *rand.Rand, stt *stats, w *evWriter, n int
 				so2 = "identnotype"
 			case 1:
 				so2 = "badtypenoid"
+			case 2:
+				sm2 = "listbadtail"
 			}
+
 			if i >= 49*8 && i < 49*8+40 {
 				// a payload that names every attribute and every relationship, some of them without data
 				c.Attrs = map[string]string{}
@@ -1262,6 +1273,12 @@ func codecOtherModes(mode string, rng *rand.Rand, stt *stats, w *evWriter, n int
 				}
 				c.Rels = []relShape{ro, rm}
 			}
+			if i%17 == 3 {
+				sm2 = "listbadtail"
+			}
+			if sm2 == "listbadtail" {
+				stt.class("shape:listbadtail")
+			}
 			ro2 := relShape{Name: "o2", To1: true, Shape: so2, Listed: []string{}}
 			rm2 := relShape{Name: "m2", To1: false, Shape: sm2, Listed: []string{}}
 			if so2 == "ident" || so2 == "identbadtype" || so2 == "identnotype" {
@@ -1278,6 +1295,11 @@ func codecOtherModes(mode string, rng *rand.Rand, stt *stats, w *evWriter, n int
 			}
 			if i%3 != 0 || i < 49*8+40 {
 				c.Rels = append(c.Rels, ro2, rm2)
+			}
+			if i%23 == 7 {
+				// a type the schema does not have, and nothing else to stumble on
+				c.Attrs, c.Rels, c.UnknownType = map[string]string{}, nil, true
+				stt.class("unknown-type-bare")
 			}
 			c.NoDataForm = rng.Intn(len(noDataForms))
 			if rng.Intn(10) == 0 {
